@@ -295,3 +295,28 @@ for _k, _v in MORE6.items():
     MORE[_k] = (MORE[_k] + ' ' if _k in MORE else '') + _v
 NOTES += (' The loader normalises the tree before any rule runs: functions absent from nbsa/baseline_functions.json (the reference tree) are inlined into their callers '
           '(nbsa/inline.py), so that "extract helper" refactorings do not move constructs out of the anchored functions; on the reference tree this is the identity.')
+
+
+MORE7 = {
+    'C02': 'R02.20 the order-sensitive similarity predicate always receives (item of the first document, item of the second).',
+    'C04': 'R04.1 checks every path that carries record-conflict against the schema (object-valued nbdime-conflicts admissible).',
+    'C05': 'R05.12 has_conflicted() is a pure scan of the current conflict flags; R05.2 accepts delegation to a guarded dispatcher.',
+    'C06': 'R06.2 the id predicate has the highest precedence for /cells.',
+    'C07': 'R07.16 no chunk type with an insertion hands it to a keep-base decision.',
+    'C08': 'R08.13 no one-shot iterator is read twice on the command path; R08.14 no handler removes/renames/truncates a file.',
+    'C10': 'R10.10 as R05.12.',
+    'C11': 'R11.12 hand-built removals keyed by a decision index are behind existence evidence; R11.13 custom diffs take ready-made entries from one side only.',
+    'C12': 'R12.13 no mutable parameter default is kept or changed.',
+    'C13': 'R13.3 counts += on a name bound to a list-typed field as in-place.',
+    'C14': 'R14.18 the configured Ignore mapping is installed whenever present.',
+    'C15': 'R15.11 neither side post-processes the document after the last patch; R15.12 the list merger registers decisions in one pass over the chunks.',
+    'C16': 'R16.20 every notebook read converts to major 4; R16.21 regex matches are tested before use on the rendering path.',
+    'C17': 'R17.15 path filters reach git verbatim; R17.16 the clean filter runs through the shell with the configured string.',
+    'C18': 'R18.12 repository-scope attributes: existence probe of .git in the current directory only; R18.13 driver sections are removed whatever value is registered.',
+    'C19': 'R19.12 recursive_update stores under the key given; R19.13 as R14.18; R19.3 evaluates the search path symbolically (working directory first).',
+    'C20': 'R20.16 each tool endpoint consults only its own tool\'s start-up arguments.',
+}
+for _k, _v in MORE7.items():
+    MORE[_k] = (MORE[_k] + ' ' if _k in MORE else '') + _v
+NOTES += (' Local closures absent from the reference tree are inlined like module-level helpers. Measured on 108 stored behaviour-preserving refactorings '
+          '(twins/, three independent batches): no false VIOLATION; some end in exit 2 on a property whose rules cannot follow the rewrite.')
